@@ -369,16 +369,28 @@ def stage(run):
         if kind in ("u32", "s32", "s64"): run.count("enc:%s:%d-byte" % (kind, len(b)))
 
     # model comparison + the specification decoders of the Coq development on the observed bytes
-    shards = []; cur = []; cost = 0
+    def literal_size(r):                           # number of run pairs in the Coq literal of this row
+        _, kind, x, b = r
+        n = sum(1 for j in range(1, len(b)) if b[j] != b[j - 1]) + 1
+        return n + (len(x[1]) if kind == "sec" else len(x) if kind in ("loc", "str") else 0)
+    shards = []; cur = []; cost = 0; fragile = set()
     for r in rows:
+        ls = literal_size(r)
+        if ls > 100000:                            # (a broken encoder can produce megabytes) python oracle only
+            run.count("enc:python-oracle-only(literal too large for coqc)")
+            continue
+        if ls > 3000:                              # its own coqc run; a parser stack overflow there is not a verdict
+            fragile.add(len(shards)); shards.append([r]); continue
         c = 1 + (_weight(r[1], r[2])[0] // 400 if r[1] in ("loc", "str", "sec") else 0)
         if cur and cost + c > 1200: shards.append(cur); cur = []; cost = 0
         cur.append(r); cost += c
     if cur: shards.append(cur)
     results = common.pmap(lambda a: coq_compare(a[1], str(a[0])), list(enumerate(shards)), workers=max(1, min(4, len(shards))))
     bad_model = []; bad_spec = []; coq_failed = None
-    for res, out in results:
-        if res is None: coq_failed = out
+    for n, (res, out) in enumerate(results):
+        if res is None and n in fragile and "Stack overflow" in out:
+            run.count("enc:python-oracle-only(literal too large for coqc)")
+        elif res is None: coq_failed = out
         else: bad_model += res[0]; bad_spec += res[1]
     byid = {r[0]: r for r in rows}
     for i in bad_spec:                             # the proved-correct decoder rejects what python accepted
@@ -410,14 +422,17 @@ def stage(run):
         _, kind, x, b = byid[i]
         if kind not in genuine:                 # a kind with a genuine violation is already reported with its input
             drift.setdefault(kind, []).append((_weight(kind, x), x, b))
-    for kind, lst in sorted(drift.items()):
-        lst.sort(key=lambda g: g[0])
-        _, x, b = lst[0]
-        run.violation("encmodel:%s" % kind,
-                      "wasm %s encoder no longer computes the bytes of its Gallina port (Models/WasmEnc.v) although they still decode to the input, "
-                      "e.g. input %s -> [%s]; the theorems of Props/C02Enc.v do not speak about this code any more" % (kind, _show(kind, x), b[:16].hex(" ")),
-                      {"kind": kind, "correspondence": "bad_model (Models/WasmEnc.v) vs hooks/wasmenc", "input": _show(kind, x),
-                       "implementation_bytes_hex": b[:64].hex(), "inputs": [_show(kind, g[1]) for g in lst[:8]]}, no_input=True)
+    if drift:
+        ex = []
+        for kind, lst in sorted(drift.items()):
+            lst.sort(key=lambda g: g[0])
+            ex.append({"kind": kind, "input": _show(kind, lst[0][1]), "implementation_bytes_hex": lst[0][2][:64].hex(),
+                       "inputs": [_show(kind, g[1]) for g in lst[:8]], "count": len(lst)})
+        run.violation("encmodel:" + "+".join(sorted(drift)),
+                      "wasm binary encoders (%s) no longer compute the bytes of their Gallina ports (Models/WasmEnc.v) although the bytes still decode to the "
+                      "input, e.g. %s input %s -> [%s]; the theorems of Props/C02Enc.v do not speak about this code any more"
+                      % (", ".join(sorted(drift)), ex[0]["kind"], ex[0]["input"], bytes.fromhex(ex[0]["implementation_bytes_hex"])[:16].hex(" ")),
+                      {"correspondence": "bad_model (Models/WasmEnc.v) vs hooks/wasmenc", "examples": ex}, no_input=True)
     if coq_failed is not None:
         run.violation("enc:coq-eval", "the model evaluation of the encoder cases did not run", {"log": coq_failed[-3000:]}, no_input=True)
     if not ok and not found_any:
@@ -441,4 +456,5 @@ if __name__ == "__main__":
     print("c02enc tier=%s seed=%d stage=%s obligations=%d discharged=%d evaluations=%d distinct=%d violations=%d wall=%.1fs %s" % (
         tier, run.seed, res, run.obligations, run.discharged, run.evaluations, len(run.distinct), len(run.violations),
         time.time() - run.t0, json.dumps(run.extra.get("c02enc", {}))))
+    print("distribution: " + json.dumps(run.dist, sort_keys=True))
     sys.exit(1 if run.violations else 0)
